@@ -23,7 +23,7 @@ ASM_EXCEPTIONS = {'FlipJumpParsingException', 'FlipJumpPreprocessorException', '
                   'FlipJumpAssemblerException', 'FlipJumpWriteFjmException'}
 REQUIRED = ('success, or one of ' + ', '.join(sorted(ASM_EXCEPTIONS)) + ' (not the "Unknown exception ... please report this '
             'bug" catch-all, not a raw Python exception, no hang) whose message names the offending construct; no loadable '
-            'output file after a failure')
+            'output file after a failure; with a debugging file requested, a successful assembly leaves one that loads back')
 
 # model limits used for the correspondence (see coq/Model/AsmErrors.v, `config`): the generators stay out of the bands in
 # which the real outcome depends on the interpreter's stack / memory state
@@ -39,13 +39,15 @@ BIT_LIMIT = 1 << 33       # shift / power results with more bits than this canno
 
 def build_cases(ctx):
     rng = ctx.rng
+    import random
+    DEBUG_RNG[0] = random.Random(f'C14-debug:{ctx.seed}')
     q = ctx.quick()
     mem = 1024 if q else 4096
     groups = [
         bg.gen_lexing(rng, ctx.n(60, 400)), bg.gen_syntax(rng, ctx.n(260, 1500)), bg.gen_names(rng, ctx.n(120, 600)),
         bg.gen_layout(rng, ctx.n(176, 880)), bg.gen_range(rng, ctx.n(256, 2048)), bg.gen_arith(rng, ctx.n(360, 2880)),
         bg.gen_recursion(rng, ctx.n(90, 184)), bg.gen_collisions(rng, ctx.n(76, 304)),
-        bg.gen_bigint(rng, ctx.n(640, 2100)), bg.gen_interleave(rng, ctx.n(320, 3200)), layout_family(ctx, ctx.n(260, 2600)), bg.gen_huge(rng, ctx.n(56, 112), mem),
+        bg.gen_bigint(rng, ctx.n(760, 2300)), bg.gen_interleave(rng, ctx.n(320, 3200)), layout_family(ctx, ctx.n(260, 2600)), bg.gen_huge(rng, ctx.n(56, 112), mem),
     ]
     valid = bg.gen_valid(rng, ctx.n(150, 1500))
     groups.append(valid)
@@ -76,6 +78,9 @@ def layout_family(ctx, n):
             for j in pg.gen_jobs(ctx.rng, n)]
 
 
+DEBUG_RNG = [None]
+
+
 def finish_cases(raw, k0):
     cases = []
     k = k0
@@ -93,6 +98,9 @@ def finish_cases(raw, k0):
                 c['stl'] = True
             c['warm'] = bool(c['stl'] and (k // 16) % 2 == 0)
             c.setdefault('max_depth', None)
+            # the debugging-labels file (written last, after the .fjm): a seed-chosen third of every family, and every
+            # case that asks for it (the big-integer templates with labels / segment / reserve, the N7 regression)
+            c.setdefault('debug', DEBUG_RNG[0].random() < 1 / 3)
             k += 1
             cases.append(c)
     return cases
@@ -108,7 +116,7 @@ def run_cases(ctx, cases, timeout=WATCHDOG):
     for i, c in enumerate(fast):
         chunks[(i + len(slow)) % nw].append(c)
     chunks = [ch for ch in chunks if ch]
-    keys = ('id', 'w', 'v', 'stl', 'warm', 'files', 'max_depth', 'mem_mb', 'timeout')
+    keys = ('id', 'w', 'v', 'stl', 'warm', 'files', 'max_depth', 'mem_mb', 'timeout', 'debug')
     payloads = [{'dir': str(ctx.scratch), 'timeout': timeout,
                  'cases': [{k: c[k] for k in keys if k in c} for c in ch]} for ch in chunks]
     outs = fw.run_workers_parallel(ctx, 'asmfail', payloads, timeout=3000)
@@ -164,6 +172,11 @@ def judge(case, obs):
                       f'{obs["cls"]} is not one of the specific assembly exceptions'))
         # a specific exception whose message names no file/line, identifier or address (names_construct) is counted in the
         # evidence (histogram diagnostic_site) only: such messages name the situation, which the property accepts
+    if res == 'ok' and obs.get('debug') and obs.get('dbg_load') not in ('loads', None):
+        v.append(({'kind': 'debug-labels-unreadable', 'exc': obs.get('dbg_load')},
+                  f'the assembly succeeded but its debugging-labels file does not load back ({obs.get("dbg_load")})'))
+    if res == 'ok' and obs.get('debug') and not obs.get('dbg_exists'):
+        v.append(({'kind': 'debug-labels-missing'}, 'the assembly succeeded but wrote no debugging-labels file'))
     if failed and obs.get('out_exists') and obs.get('reader') == 'accepts':
         v.append(({'kind': 'loadable-file-after-failure', 'result': res, 'frame': obs.get('frame')},
                   'the assembly failed but the output path holds a file that fjm_reader.Reader accepts'))
@@ -172,12 +185,12 @@ def judge(case, obs):
 
 def replay_of(case, obs):
     text = case['text']
-    r = {'case': {k: case[k] for k in ('cls', 'hint', 'w', 'v', 'stl', 'warm', 'files', 'max_depth') if k in case},
+    r = {'case': {k: case[k] for k in ('cls', 'hint', 'w', 'v', 'stl', 'warm', 'files', 'max_depth', 'debug') if k in case},
          'source': text if isinstance(text, str) else text.decode('latin1'),
          'observed': {k: obs.get(k) for k in ('result', 'cls', 'cause', 'catch_all', 'frame', 'frame_file', 'stage', 'msg',
-                                               'out_exists', 'out_size', 'reader', 'secs')},
+                                               'out_exists', 'out_size', 'reader', 'secs', 'debug', 'dbg_exists', 'dbg_load')},
          'required': REQUIRED,
-         'how': 'flipjump.assemble([p.fj], out, memory_width=w, use_stl=stl, fjm_version=FJMVersion(v), print_time=False)'}
+         'how': 'flipjump.assemble([p.fj], out, memory_width=w, use_stl=stl, fjm_version=FJMVersion(v), print_time=False[, debugging_file_path=out.fjd if debug])'}
     if case.get('mem_mb'):
         r['case']['mem_mb'] = case['mem_mb']
     return r
@@ -518,6 +531,9 @@ def run(ctx):
         ctx.hist('generator', c['cls'])
         ctx.hist('width_version', f'w{c["w"]}v{c["v"]}')
         ctx.hist('stl', f'{"stl" if c["stl"] else "nostl"}{"-warm" if c["warm"] else ""}')
+        ctx.hist('debugging_file', 'requested' if c.get('debug') else 'not requested')
+        if o['result'] == 'ok' and c.get('debug'):
+            ctx.hist('debug_file_after_success', str(o.get('dbg_load')))
         if o['result'] == 'exception':
             key = ('catch-all<-' + str(o['cause'])) if o['catch_all'] else o['cls']
             ctx.hist('outcome', key)
@@ -525,6 +541,8 @@ def run(ctx):
             ctx.hist('stage', o['stage'])
             ctx.hist('diagnostic_site', f'{o["cls"]}@{o["frame"]}' + ('' if names_construct(o) else ' (names nothing)'))
             ctx.hist('file_after_failure', 'none' if not o['out_exists'] else f'exists, reader: {o["reader"]}')
+            if o.get('debug'):
+                ctx.hist('debug_file_after_failure', 'exists' if o.get('dbg_exists') else 'none')
         else:
             r = o['result']
             if r == 'hang' and not judge(c, o):
@@ -587,7 +605,7 @@ def replay(ctx, path):
     o = run_cases(ctx, [c])[0]
     print(f'[C14] replay of {path}')
     print(f'  input: w={c["w"]} version={c["v"]} stl={c["stl"]} source={rp.get("source", "")[:400]!r}')
-    print(f'  observed: {json.dumps({k: o.get(k) for k in ("result", "cls", "cause", "catch_all", "frame", "stage", "out_exists", "reader")})}')
+    print(f'  observed: {json.dumps({k: o.get(k) for k in ("result", "cls", "cause", "catch_all", "frame", "stage", "out_exists", "reader", "debug", "dbg_exists", "dbg_load")})}')
     print(f'            message: {o.get("msg", "")[:300]!r}')
     print(f'  required: {REQUIRED}')
     v = judge(c, o)
